@@ -25,10 +25,12 @@ func TestWorker(t *testing.T) {
 	worlds.RegisterWorld("W5", runW5)
 	worlds.RegisterWorld("W5H", runW5H)
 	worlds.RegisterShrinker("W5", shrinkW5)
-	go func() {
-		for range logger.Messages {
+	worlds.RegisterWorld("W7", runW7)
+	worlds.RegisterShrinker("W7", shrinkW7)
+	go func(c <-chan []byte) { // the channel of this moment: runs install their own inside the bubble
+		for range c {
 		}
-	}()
+	}(logger.Messages)
 	worlds.WorkerMain(t)
 }
 
